@@ -120,7 +120,9 @@ def suite_traces(ctx):
     json.dump({'Replace': {os.path.join(REPO, 'v3', 'lint', 'verif_recorder.go'): os.path.join(VERIF, 'harness', 'suite', 'recorder.go.txt')}}, open(ov, 'w'))
     env = dict(GOENV)
     env['VERIF_SUITE_TRACE'] = d
-    rc, out = sh(['go', 'test', '-tags', 'verif', '-overlay', ov, '-vet=off', '-count=1', './...'], cwd=os.path.join(REPO, 'v3'), timeout=2400, env=env)
+    # thorough: three rounds in shuffled test order (what a test reports must not depend on the tests run before it)
+    how = ['-count=1'] if ctx.quick else ['-count=3', '-shuffle=%d' % (1000 + ctx.seed)]
+    rc, out = sh(['go', 'test', '-tags', 'verif', '-overlay', ov, '-vet=off'] + how + ['./...'], cwd=os.path.join(REPO, 'v3'), timeout=2400, env=env)
     n = sum(1 for f in os.listdir(d) for _ in open(os.path.join(d, f)))
     if n == 0:
         raise Inconclusive('the repository test suite recorded no execution (does it build with -tags verif?):\n' + out[-2000:])
